@@ -93,6 +93,18 @@ Holds(r) ==
          \* the vector of rationals returned for the integer vector r.s, maximum edge size r.k
          r.res = "ok" /\ LET t1 == TTSV1(r.mem, r.n, r.k, r.s) IN \A a \in 1..r.n : REq(r.out[a], t1[a])
     [] r.fn = "ttsv2" -> r.res = "ok" /\ Ttsv2Wrong(r) = {}
+    [] r.fn = "ashist" ->
+         \* r.s values of the statistic, r.k number of bins (NoneArg: explicit edges r.ids), r.b = <<density>>
+         \* out = <<centers, values, lows, highs, <<ylabel>>>>
+         LET one == Cardinality(Range(r.s)) = 1
+             E == IF r.k = NoneArg THEN [j \in DOMAIN r.ids |-> <<r.ids[j], 1>>]
+                  ELSE HistEdgesInt(r.s, IF one THEN 1 ELSE r.k)
+             nb == Len(E) - 1
+             exp == IF r.b[1] THEN HistDensity(r.s, E) ELSE [j \in 1..nb |-> <<HistCounts(r.s, E)[j], 1>>]
+         IN r.res = "ok" /\ Len(r.out[1]) = nb /\ Len(r.out[2]) = nb
+            /\ \A j \in 1..nb : REq(r.out[1][j], HistCenters(E)[j]) /\ REq(r.out[2][j], exp[j])
+                                /\ REq(r.out[3][j], E[j]) /\ REq(r.out[4][j], E[j + 1])
+            /\ r.out[5] = <<IF r.b[1] THEN "Probability" ELSE "Count">>
     [] OTHER -> FALSE
 
 Verdict(r) == IF r.anom # <<>> THEN <<"X01:anomaly." \o r.anom[1]>>
